@@ -148,6 +148,8 @@ def selectors(names):
     k = len(names)
     out = [None, names[0], names[-1], 'a.*', 'a.b', '[ab]+', 'a|ab', '(a|ab)', 'b|a', 'ab?c?',
            re.escape(names[-1]), 'zzz', '(?i)' + names[0].upper(), '(?i)A.*|zzz',
+           # a string is ONE pattern, whatever characters it holds (a comma belongs to a quantifier or a class)
+           'a{1,1}b{0,1}', '[a,b]+',
            [], [names[0]], list(names), [names[-1], 'nope'], 0, -1, k - 1, -k, k, -k - 1]
     if k > 1:
         out += [1, [names[0], names[-1]], names[:2], [names[1]],
@@ -179,6 +181,50 @@ def gen_cases(tier, seed):
         for proc in PROCS:
             for s in selectors(names):
                 yield {'family': proc, 'proc': proc, 'names': names, 'selector': s}
+    # a resource WITHOUT a schema (a non-tabular attachment) travels with the data, unselected
+    for proc in PROCS:
+        if proc in ('load_tuple', 'load_package', 'checkpoint', 'concatenate', 'rename_fields_string_pk'):
+            continue
+        for s in ('ab', ['ab'], 'a.', 1, 'a|ab'):
+            yield {'family': 'schemaless_neighbour', 'proc': proc, 'names': ['notes', 'ab'], 'selector': s}
+
+
+def run_schemaless(case):
+    proc, s = case['proc'], case['selector']
+    d = lab.df()
+    counters = {'resources_compared': 0, 'matcher_calls': 0, 'matcher_contract_checked': 0}
+    cov = {'proc_x_form': {'schemaless_neighbour/%s/%s' % (proc, sel_form(s)): 1}}
+    notes = [{'line': 'first'}, {'line': 'second'}]
+
+    def run(with_step):
+        desc = {'resources': [{'name': 'notes', 'path': 'notes.txt'},
+                              {'name': 'ab', 'path': 'ab.csv', 'schema': {'fields': copy.deepcopy(FIELDS)}}]}
+        pre, st = build(proc, copy.deepcopy(s) if with_step else None, [])
+        steps = [d.load((desc, [iter(copy.deepcopy(notes)), iter(table(1))]), strip=False)] + pre + ([st] if with_step else [])
+        try:
+            with boot.quiet():
+                ds = d.Flow(*steps).datastream()
+                rows = [list(r) for r in ds.res_iter]
+            return copy.deepcopy(ds.dp.descriptor['resources']), rows
+        except Exception as e:
+            return e, None
+    base_desc, base_rows = run(False)
+    got_desc, got_rows = run(True)
+    if base_rows is None or got_rows is None:
+        # a step that cannot run next to a schema-less resource decides nothing here
+        return dict(nontrivial=False, violations=[], cov={}, counters=counters)
+    viol = []
+    counters['resources_compared'] += 1
+    gd = next((r for r in got_desc if r['name'] == 'notes'), None)
+    if gd != base_desc[0]:
+        viol.append({'kind': 'unselected_changed', 'mech': 'schemaless_neighbour/descriptor', 'proc': proc, 'form': sel_form(s),
+                     'msg': '%s(resources=%r): descriptor of the unselected schema-less resource changed: %r -> %r'
+                     % (proc, s, base_desc[0], gd)})
+    elif got_rows[0] != base_rows[0]:
+        viol.append({'kind': 'unselected_changed', 'mech': 'schemaless_neighbour/rows', 'proc': proc, 'form': sel_form(s),
+                     'msg': '%s(resources=%r): rows of the unselected schema-less resource changed' % (proc, s)})
+    return dict(nontrivial=True, violations=viol, cov=cov, counters=counters,
+                sample={'names': ['notes', 'ab'], 'selector': s, 'proc': proc})
 
 
 def legacy_sel(s, names):
@@ -194,6 +240,8 @@ def run_case(case):
     if case['family'] == 'optimized_differential':
         from vlib import optlab
         return optlab.as_case_result(['selector_regex', 'selector_int', 'update_resource', 'update_schema', 'set_primary_key', 'validate'], {'resources_compared': 0, 'matcher_calls': 0, 'matcher_contract_checked': 0})
+    if case['family'] == 'schemaless_neighbour':
+        return run_schemaless(case)
     proc, names, s = case['proc'], case['names'], case['selector']
     d = lab.df()
     try:
